@@ -565,3 +565,20 @@ pub fn radio(m: &AisMessage) -> Option<Comm> {
         _ => None,
     }
 }
+
+/// Are the values two codes of an enumerated field decode to equal under the crate's own
+/// `PartialEq`? (C12: distinct codes map to distinct values.) kind: 0 ship type, 1 fix
+/// device, 2 navigation status, 3 manoeuvre indicator, 4 aid type
+pub fn enum_codes_equal(kind: u8, a: u8, b: u8) -> bool {
+    use ais::messages::aid_to_navigation_report::NavaidType;
+    use ais::messages::navigation::ManeuverIndicator;
+    use ais::messages::position_report::NavigationStatus;
+    use ais::messages::types::{EpfdType, ShipType};
+    match kind {
+        0 => ShipType::parse(a) == ShipType::parse(b),
+        1 => EpfdType::parse(a) == EpfdType::parse(b),
+        2 => NavigationStatus::parse(a) == NavigationStatus::parse(b),
+        3 => ManeuverIndicator::parse(a) == ManeuverIndicator::parse(b),
+        _ => NavaidType::parse(a) == NavaidType::parse(b),
+    }
+}
